@@ -1360,7 +1360,8 @@ def run(ctx):
             q = r2.choice([52, 17, 19])
             d = r2.range(4, 53)
             b = r2.range(0, 12)
-            mag = r2.choice([1.0, 0.5, 2.0 ** max(0, b - 2), 2.0 ** max(0, b - 1) * 0.69])   # 0.69 ≈ 0.98/√2: slot bound → coefficient bound
+            cap = 2.0 ** (b - 1) * 0.69          # 0.69 ≈ 0.98/√2: slot bound → coefficient bound; a plaintext of log_budget b holds |coefficient| < 2^(b-1)
+            mag = r2.choice([m_ for m_ in [1.0, 0.5, 2.0 ** max(0, b - 2), cap] if m_ <= cap] or [cap])
             fl = "f128" if k % 4 == 3 else "f64"
             if fl == "f128":
                 d = r2.range(4, 113)
